@@ -98,14 +98,27 @@ pub fn execute_on(prop: &str, c: &L2Scen, e: &Expect, extra_hook: Option<l2::Hoo
         }
     }
     let prior = prior_override.map(|p| p.to_vec()).or_else(|| e.prior.clone());
+    // option combinations that ask for nothing new (a function of the case): 0 and 1 in 2 cases of 6
+    let flag_mix = if std::env::var("BVERIF_NO_VERBOSITY").is_err() { blake2_64(&[&case_salt().to_le_bytes(), b"flag-mix"]) % 6 } else { 5 };
     if let Some(p) = &prior {
         if device.is_none() {
             l2::write_file(&dir.join("o.out"), p);
         }
         if s.inplace {
             args.push("--seed-output".into());
+            // --force-create next to --seed-output asks for nothing more (the output may exist either way)
+            if flag_mix == 0 {
+                args.push("--force-create".into());
+            }
         } else {
             args.push("--force-create".into());
+        }
+    } else if device.is_none() {
+        // no output yet: --force-create or --seed-output on an absent output is a plain clone into a new file
+        match flag_mix {
+            0 => args.push("--force-create".into()),
+            1 => args.push("--seed-output".into()),
+            _ => {}
         }
     }
     if c.verify_output {
